@@ -183,9 +183,10 @@ const OK_ITEMS: [&str; 8] = [
     "fn s#(): String { \"hällo 😀 end\" }", "const K#: Int64 = 1;", "/* 😀 é */ fn c#() {}", "fn m#(e: Option[Int64]): Int64 { match e { Some(x) => x, None => 0 } }",
 ];
 /// items with exactly the kind of mistake a user makes, placed after non-ASCII text on the same line
-const BAD_ITEMS: [&str; 8] = [
+const BAD_ITEMS: [&str; 14] = [
     "fn e#(): Int64 { let é = \"ü😀\"; true }", "/* 😀😀 */ fn u#(): Int64 { unknown_name }", "fn t#() { let ö: Int64 = \"ä\"; }", "fn d#() { let 😀 = 1; }",
     "class Ü# { x: UnknownType }", "fn r#(): Bool { \"😀\".size() }", "fn w#() { let a = 1; let é = a.nothing(); }", "fn q#(é: Int64): Strin { é }",
+    "mod missing#;", "use missing#::x;", "use self::nothing#;", "mod inner# { use super::gone; }", "impl Missing# { fn m() {} }", "impl Tr# for Int64 {}",
 ];
 fn gen_diag_program(rng: &mut Rng) -> String {
     let n = 1 + rng.below(6);
@@ -196,6 +197,12 @@ fn gen_diag_program(rng: &mut Rng) -> String {
         s.push_str(match rng.below(3) { 0 => "\r\n", 1 => " ", _ => "\n" });
     }
     s.push_str("fn main() {}\n");
+    // now and then a document that is still being typed: cut somewhere (on a character boundary)
+    if rng.below(3) == 0 {
+        let mut cut = rng.below(s.len() + 1);
+        while !s.is_char_boundary(cut) { cut -= 1; }
+        s.truncate(cut);
+    }
     s
 }
 /// contract: every published diagnostic carries the UTF-16 range (position.rs, proved) of its error span
@@ -219,7 +226,11 @@ fn check_diagnostics(text: &str) -> Option<String> {
         v.sort();
         v
     });
-    let expected = match expected { Ok(v) => v, Err(_) => return None }; // a front-end panic on this text is not this clause's business
+    let expected = match expected {
+        Ok(v) => v,
+        // the server runs the same analysis in compile_project_main: a panic of the front end on this text takes the server's worker down
+        Err(_) => return Some(format!("document analysis (check_program, as run by compile_project_main) panicked at {}", LAST_PANIC.with(|c| c.borrow().clone()))),
+    };
     let got = match std::panic::catch_unwind(|| diag::vx_diagnostics(text)) {
         Ok(d) => d,
         Err(_) => return Some(format!("compile_project_main panicked at {}", LAST_PANIC.with(|c| c.borrow().clone()))),
@@ -311,6 +322,18 @@ fn main() {
         let seed: u64 = args[2].parse().unwrap();
         let count: u64 = args[3].parse().unwrap();
         let mut rng = Rng(seed.wrapping_mul(0x9E3779B97F4A7C15) | 1);
+        // first: documents that are still being typed (every prefix an editor sends while a declaration is written)
+        const TYPING: [&str; 40] = [
+            "fn", "fn ", "fn f", "fn f(", "fn f(a", "fn f(a:", "fn f(a: Int64", "fn f()", "fn f():", "fn f(): Int64", "fn f() {", "fn f() { let", "fn f() { let x =", "fn f() { x.", "fn f() { x(",
+            "const", "const X", "const X:", "const X: Int64 =", "let G: Int64 =", "mod", "mod ", "mod foo", "mod foo;", "mod m {", "impl", "impl ", "impl T for", "impl[T]", "impl A {",
+            "class", "class C {", "class C(", "struct S(", "enum E {", "enum E { A(", "trait T {", "trait T { fn m(", "use", "use a::",
+        ];
+        for t in TYPING.iter() {
+            for prefix in ["", "fn ok() {}\n", "/* é😀 */ class K\n"] {
+                let text = format!("{}{}", prefix, t);
+                if let Some(w) = check_diagnostics(&text) { println!("{{\"found\":true,\"tried\":0,\"kind\":\"diag\",\"text_hex\":\"{}\",\"what\":{:?}}}", to_hex(&text), w); return; }
+            }
+        }
         for k in 0..count {
             let t = gen_diag_program(&mut rng);
             if let Some(w) = check_diagnostics(&t) { println!("{{\"found\":true,\"tried\":{},\"kind\":\"diag\",\"text_hex\":\"{}\",\"what\":{:?}}}", k + 1, to_hex(&t), w); return; }
